@@ -33,9 +33,9 @@ Record cop := mkOp {
 #[global] Instance eta_cop : Settable _ :=
   settable! mkOp <o_mid; o_kind; o_deadline; o_status; o_reply; o_items; o_taken; o_chan; o_rx; o_got; o_res; o_tmo; o_call>.
 
-Record fixes := mkFx { fix5 : bool; fix7 : bool; fix8 : bool; fix9 : bool; fix15 : bool; fix16 : bool }.
-Definition as_is := mkFx false false false false false false.
-Definition repaired := mkFx true true true true true true.
+Record fixes := mkFx { fix5 : bool; fix7 : bool; fix8 : bool; fix9 : bool; fix15 : bool; fix16 : bool; fix20 : bool }.
+Definition as_is := mkFx false false false false false false false.
+Definition repaired := mkFx true true true true true true true.
 
 Inductive dstatus := Running | EndedOk | EndedErr | EndedPanic.
 Record st := mkSt {
@@ -209,7 +209,12 @@ Definition step (s : st) (e : ev) : st :=
       match o_status c with
       | SActive | SError | SDone =>
           let s1 := updop o (fun c => c <| o_status := SClosed |> <| o_rx := false |>) s in
-          match o_status c with SDone => s1 | _ => if is_running s then s1 <| scrubq ::= fun q => q ++ [o_mid c] |> else s1 end
+          (* finish_inner asks for the id to be scrubbed unless the stream is Done; repair F20: only while it is still Active - in the
+             Error state that has been done already (timeout) or the id is gone (closed channel) *)
+          match o_status c with
+          | SDone => s1
+          | SError => if fix20 (fx s) then s1 else if is_running s then s1 <| scrubq ::= fun q => q ++ [o_mid c] |> else s1
+          | _ => if is_running s then s1 <| scrubq ::= fun q => q ++ [o_mid c] |> else s1 end
       | _ => s end end
   | Advance dt => s <| now ::= Z.add (Z.max 0 dt) |>
   end.
